@@ -104,14 +104,43 @@ def run_tlc(module, cfg=None, workers=None, env=None, timeout=900, simulate=None
     r = TLCResult()
     r.cmd = ' '.join(cmd)
     t0 = time.time()
+    # TLC 1.8 has been observed to keep running for minutes after it has printed an invariant violation and its
+    # error trace (huge initial-state sets); the output is therefore streamed and the process is ended once a
+    # violation has been reported and nothing more has been printed for a grace period.
+    import threading
+    chunks, state = [], {'viol_at': None, 'last': time.time()}
     try:
-        p = subprocess.run(cmd, cwd=moddir, env=e, stdout=subprocess.PIPE, stderr=subprocess.STDOUT, timeout=timeout)
-        r.rc = p.returncode
-        r.out = p.stdout.decode('utf-8', 'replace')
-    except subprocess.TimeoutExpired as ex:
-        r.timed_out = True
-        r.rc = -1
-        r.out = (ex.stdout or b'').decode('utf-8', 'replace')
+        p = subprocess.Popen(cmd, cwd=moddir, env=e, stdout=subprocess.PIPE, stderr=subprocess.STDOUT)
+
+        def reader():
+            for raw in iter(p.stdout.readline, b''):
+                chunks.append(raw)
+                state['last'] = time.time()
+                if state['viol_at'] is None and (raw.startswith(b'Error: Invariant') or raw.startswith(b'Error: Action property')
+                                                 or raw.startswith(b'Error: Temporal properties')):
+                    state['viol_at'] = time.time()
+        th = threading.Thread(target=reader, daemon=True)
+        th.start()
+        killed = False
+        while True:
+            try:
+                p.wait(timeout=1.0)
+                break
+            except subprocess.TimeoutExpired:
+                now = time.time()
+                if state['viol_at'] is not None and now - state['last'] > 15:
+                    p.kill()
+                    killed = True
+                    p.wait()
+                    break
+                if now - t0 > timeout:
+                    p.kill()
+                    p.wait()
+                    r.timed_out = True
+                    break
+        th.join(timeout=5)
+        r.rc = 12 if killed else (-1 if r.timed_out else p.returncode)
+        r.out = b''.join(chunks).decode('utf-8', 'replace')
     finally:
         shutil.rmtree(meta, ignore_errors=True)
     r.wall = time.time() - t0
